@@ -282,6 +282,7 @@ PROPERTY_META["C15"] = dict(
 
 # --------------------------------------------------------------------------- C16 (purity)
 K("c16_iter_shapes_parse_number_small", "parse", ["C16"], "parse_number: identical Number for slice iterators, chain, filter(always true), take/skip, a hand-written cloneable iterator, and a copy of the bytes at another address", ["parse::parse_number", "parse::parse_number_fast"], strength="bounded", bound="shapes (0,0),(1,0),(0,2),(3,2)", features=["default", "compact"], timeout=900)
+K("c16_iter_shapes_parse_number_21", "parse", ["C16"], "same, on a 21+1 digit input: remaining integer digits are counted whatever the iterator type", ["parse::parse_number"], strength="bounded", bound="shape (21,1)", features=["default", "compact"], timeout=1200)
 K("c16_iter_shapes_parse_number_20", "parse", ["C16"], "same, on a 18+3 digit input (second pass, truncation)", ["parse::parse_number"], strength="bounded", bound="shape (18,3)", features=["default", "compact"], timeout=1200, tier="thorough")
 # (c16_frame_parse_float_f64: function contract with empty modifies on parse_float timed out at 20 min in CBMC assigns instrumentation: NOT registered)
 
@@ -294,6 +295,7 @@ for key, mod in FRONT.items():
     K("c19_parse_exponent", mod, ["C19"], "%s parse_exponent on 0, 1, 3 digits: +/- value, never panics" % src, [src + "::parse_exponent"], strength="bounded", bound="exponent digit counts {0,1,3}, all digit values", features=["default"], timeout=900, id_suffix=key)
     K("c19_parse_exponent_10", mod, ["C19"], "%s parse_exponent on 10 digits (the i32 range ends here): clamp, never panics" % src, [src + "::parse_exponent"], strength="bounded", bound="10 exponent digits, all digit values", features=["default"], timeout=1800, id_suffix=key, tier="thorough")
     K("c19_parse_exponent_11", mod, ["C19"], "%s parse_exponent on 11 digits: always saturates or clamps, never panics" % src, [src + "::parse_exponent"], strength="bounded", bound="11 exponent digits, all digit values", features=["default"], timeout=1800, id_suffix=key, tier="thorough")
+    K("c19_parse_exponent_boundary", mod, ["C19"], "%s parse_exponent on 214748364d and 214748364dd (d symbolic), both signs: last exact values +2147483647 / -2147483648, beyond them saturation towards the exponent's own sign" % src, [src + "::parse_exponent"], strength="bounded", bound="10/11 digits with the concrete prefix 214748364", features=["default"], timeout=900, id_suffix=key)
     K("c19_helpers", mod, ["C19"], "%s parse_sign / consume_digits / ltrim_zero / rtrim_zero on arbitrary bytes" % src, [src + "::parse_sign", src + "::consume_digits", src + "::ltrim_zero", src + "::rtrim_zero"], strength="bounded", bound="length <= 8", features=["default"], id_suffix=key)
 import staticscan as _ss
 X("c16_no_global_state", "static", _ss.run, ["C16"], "frame (syntactic): the crate's sources contain no `static mut`, interior-mutable static, thread-local, lazily initialised or lock-protected global: calls share no state, hence history- and schedule-independent", ["crate-wide"], strength="proved")
@@ -312,6 +314,9 @@ for t in ("f64", "f32"):
     K("c11_bell_truncation_" + t, "bellerophon", C11L + ["C06", "C05"], "bellerophon::<%s> with error_is_accurate a ghost recorder and mul an arbitrary function: for ALL truncated (w != 0, q): the error bound handed to error_is_accurate >= 2^(lz(w)+2) eighth-ULPs (necessary: one unit of the truncated significand exceeds 2^(lz(w)-1) ULPs of the final mantissa), or saturated" % t, ["bellerophon::bellerophon"], features=BELL_CFG, zflags=("stubbing",), timeout=900)
 # c11_bell_truncation_error_fn (truncation_error(w) == min(8*floor((2^64-1)/w), 2^28-1)): divider-vs-multiplier relation, not discharged by cadical / kissat / z3 / cvc5 within 400 s each: NOT registered
 K("c11_bell_truncation_propagates", "bellerophon", C11L + ["C06"], "bellerophon with truncation_error a ghost returning T: the bound handed to error_is_accurate >= T", ["bellerophon::bellerophon"], features=BELL_CFG, zflags=("stubbing",), timeout=900)
+# (c11_bell_structure_*: full structural contract of bellerophon() with mul / error_is_accurate as recorders did not discharge within 25 min even at 4 concrete exponents: NOT registered)
+K("c11_bell_no_early_out_f64", "bellerophon", C11L + ["C05", "C07"], "bellerophon::<f64>, ALL w != 0, q in [-280, 309] (mul arbitrary, error_is_accurate a recorder): no early zero/infinity - the estimate is computed and consulted exactly once", BELL, features=BELL_CFG, zflags=("stubbing",), timeout=900)
+K("c11_bell_no_early_out_f32", "bellerophon", C11L + ["C05", "C07"], "bellerophon::<f32>, ALL w != 0, q in [-30, 309]: no early zero/infinity", BELL, features=BELL_CFG, zflags=("stubbing",), timeout=900)
 K("c11_bell_normalize", "bellerophon", C11L, "normalize: mant<<lz, exp-lz, returns lz; zero untouched", ["bellerophon::normalize"], features=BELL_CFG)
 for sfx in ("small", "large_a", "large_b", "large_c", "large_d", "large_e", "large_f"):
     K("c11_bell_mul_" + sfx, "bellerophon", C11L, "mul(x,y).mant == floor((x*y + 2^63)/2^64), exp == x.exp+y.exp+64 for every normalised x and y = each table power in the group (as constants)", ["bellerophon::mul"], strength="proved", bound="y ranges over the table entries of the group (all 76 entries over the 7 groups); x arbitrary", features=BELL_CFG[:1], timeout=3600, tier="thorough")
